@@ -420,3 +420,28 @@ func TrySendNoYield[T any](ch chan T, v T) bool {
 	}
 	return false
 }
+
+// flushChannels copies what the scheduler-side channel model holds into the
+// real channels (best effort, non-blocking).
+func (s *Sched) flushChannels() {
+	for _, cs := range s.chans {
+		func() {
+			defer func() { recover() }()
+			rv := reflect.ValueOf(cs.ref)
+			if rv.Kind() != reflect.Chan || rv.Type().ChanDir()&reflect.SendDir == 0 {
+				return
+			}
+			for _, it := range cs.queue {
+				v := reflect.Zero(rv.Type().Elem())
+				if it.v != nil {
+					v = reflect.ValueOf(it.v)
+				}
+				rv.TrySend(v)
+			}
+			cs.queue = nil
+			if cs.closed {
+				rv.Close()
+			}
+		}()
+	}
+}
